@@ -693,7 +693,7 @@ PROPS = {
                 rule="random op sequences over {delete, insert, put, merge} x {0,2,4,8-byte, bytes} x offset moves, written to the real buffer; every case is distinct by construction (independent PRNG streams) and non-trivial (>=1 op); the model must produce the same bytes"),
     "C06": dict(engines=[H("replica", 60, 800), S("rows", 150, 3000, dfs_thorough=6000)],
                 rule="sequential: histories replayed on a second collection (channel clones or a serialized log file), replica dump compared; schedules: 2-3 writers over 1-2 blocks (random + exhaustive DFS in the thorough tier), replica fed in logger order; distinct = distinct schedule traces"),
-    "C08": dict(engines=[S("snap", 250, 4000, dfs_quick=300, dfs_thorough=8000)],
+    "C08": dict(engines=[S("snap", 700, 6000, dfs_quick=300, dfs_thorough=8000)],
                 rule="a snapshot thread beside 2-3 committing writers (merges and overwrites, one or two blocks) at every yield point of the commit and snapshot protocols; the restored rows must be a prefix per block of the latch order containing every commit acknowledged before the snapshot began"),
     "C09": dict(engines=[S("rows", 250, 4000, dfs_quick=300, dfs_thorough=8000)],
                 rule="2-3 writers merging (additive and order-sensitive v*3+d) into overlapping rows of 1-2 blocks with readers; final value = fold of the committed deltas in latch order"),
